@@ -100,8 +100,31 @@ def checkAll (nr nc : Nat) (prev : PosSet) : List Op → List String → Option 
       | some why => some why
       | none => checkAll nr nc cur ops toks
 
+/-- `c17 big <nr> <nc> <op>… ? <query>…`: a history on a matrix with hundreds of thousands of rows; only the answers to the
+queries are observed (`q:r:c` membership, `w:c` column weight, `v:r` row weight), judged against the set semantics -/
+def handleBig (nr nc : String) (rest out : List String) : String :=
+  let opsT := rest.takeWhile (· ≠ "?")
+  let qsT := (rest.dropWhile (· ≠ "?")).drop 1
+  match nr.toNat?, nc.toNat?, opsT.mapM parseOp with
+  | some nr, some nc, some ops =>
+    match (SM.new nr nc).run ops with
+    | none => verdict ["panic"] out (if ops.all (·.inRange nr nc) then some "panic-on-in-range-op" else none)
+    | some h =>
+      let spec : PosSet := ops.foldl (fun s op => s.apply op) PosSet.empty
+      let ans (f : Nat → Nat → Bool) (q : String) : String :=
+        match q.splitOn ":" with
+        | ["q", r, c] => if f (r.toNat?.getD 0) (c.toNat?.getD 0) then "1" else "0"
+        | ["w", c] => toString ((List.range nr).filter (fun r => f r (c.toNat?.getD 0))).length
+        | ["v", r] => toString ((List.range nc).filter (fun c => f (r.toNat?.getD 0) c)).length
+        | _ => "?"
+      let model := qsT.map (ans (fun r c => h.has r c))
+      let want := qsT.map (ans spec)
+      verdict model out (if out ≠ want then some "membership-or-weights-differ-from-set" else none)
+  | _, _, _ => "BADLINE c17 big parse"
+
 def handle (inp out : List String) : String :=
   match inp with
+  | "big" :: nr :: nc :: rest => handleBig nr nc rest out
   | nr :: nc :: ops =>
     match nr.toNat?, nc.toNat?, ops.mapM parseOp with
     | some nr, some nc, some ops =>
